@@ -419,11 +419,34 @@ func c10r3(c *core.Ctx) {
 		if cc == nil {
 			return
 		}
+		if _, isBuiltin := cc.Value.(*ssa.Builtin); isBuiltin {
+			return // len(c.valueChangeFuncs) of a range loop is not a dispatch
+		}
 		for _, a := range cc.Args {
 			if _, ok := core.FieldLoad(a, tChar, "connValueUpdateFuncs"); ok {
 				fanouts = append(fanouts, i)
 			}
 			if _, ok := core.FieldLoad(a, tChar, "valueChangeFuncs"); ok {
+				fanouts = append(fanouts, i)
+			}
+		}
+		// the dispatch loop written out: a dynamic call of an element of one of the two slices
+		if !cc.IsInvoke() && cc.StaticCallee() == nil {
+			if core.AnySource(cc.Value, func(s ssa.Value) bool {
+				u, ok := s.(*ssa.UnOp)
+				if !ok {
+					return false
+				}
+				ia, ok := u.X.(*ssa.IndexAddr)
+				if !ok {
+					return false
+				}
+				return core.AnySource(ia.X, func(sv ssa.Value) bool {
+					_, a := core.FieldLoad(sv, tChar, "connValueUpdateFuncs")
+					_, b := core.FieldLoad(sv, tChar, "valueChangeFuncs")
+					return a || b
+				})
+			}) {
 				fanouts = append(fanouts, i)
 			}
 		}
